@@ -187,6 +187,7 @@ class ScriptedIn:
     def __init__(self, encoding="utf-8"):
         self.master, self.slave = pty.openpty()
         self.encoding = encoding
+        self.errors = "strict"     # like a text stream's .errors; "surrogateescape" for sys.stdin
         self.q = ""
         self.consumed = 0
         self.oserrors = 0          # raise OSError on the next k reads
